@@ -806,6 +806,18 @@ func (e *Env) callExpr(ex *ast.CallExpr) (SVal, error) {
 			return mkBool("true"), nil
 		}
 		return mkBool(boolLit(lastA < firstB)), nil
+	case "atevent":
+		// atevent(EventPattern, cell): the value of an operator cell when the (first) matching downstream call was made
+		pat := e.resolveEventName(argStr(0))
+		for i := range e.Events {
+			if eventNameMatch(pat, e.Events[i].Name) {
+				if v, ok := e.Events[i].Cells[argStr(1)]; ok {
+					return v, nil
+				}
+				return SVal{}, fmt.Errorf("atevent(%s, %s): unknown identifier %s", pat, argStr(1), argStr(1))
+			}
+		}
+		return SVal{}, fmt.Errorf("atevent(%s): no such event on this path", pat)
 	case "heldat":
 		// heldat(lock, EventPattern): the lock is held at every matching event
 		if !e.lockKnown(argStr(0)) {
